@@ -2,53 +2,86 @@
    Statements only: each theorem is closed by [exact], pinned by [Check] and
    followed by [Print Assumptions].
 
-   Full statements quantify over byte strings: "for every UPDATE frame b and codec,
-   if Spec/Rfc7606.v judge says must_withdraw then ...".  What is proved (_partial)
-   quantifies over every parsed UPDATE value (so over every byte string that
-   parses) and takes as "faulty" the error list the parser itself produced
-   (error_attrs with a non-discardable entry, or a mandatory attribute absent from
-   attrs / the reach next hop).  That the parser's error list is non-discardable
-   whenever the independent RFC 7606 classifier of Spec/Rfc7606.v calls the
-   UPDATE faulty is not proved: it is checked on every run by evaluating [judge]
-   in Coq on each generated frame and judging the implementation's messages
-   against it (gen/c05.py oracle). *)
+   The statements are over raw bytes: [frame] is any byte string handed to
+   PeerCodec::parse_message as one frame, [cd] any session codec, [p] the build
+   profile; "faulty" and "locatable" are the verdict of the independent RFC 7606
+   classifier Spec/Rfc7606.v [judge] on those bytes (its own attribute walk, flag,
+   length and value rules, mandatory-attribute rule, MP-attribute structure), not
+   anything the parser computed.  The link is Proofs/Rfc7606.v: the attribute walk of
+   the parser model is a fold of one-attribute steps over the Spec's TLV scan, every
+   TLV the Spec calls bad beyond discarding leaves a fatal entry in error_attrs, a
+   missing mandatory attribute is seen by the parser or by validate_update, and every
+   parse failure of the UPDATE arm is one of the Spec's "cannot locate the NLRI" cases.
+
+   Scope: the NLRI families whose decoders are modelled (IPv4/IPv6 unicast and
+   multicast, labeled unicast, VPN); [no_other] makes every other family fail to parse,
+   and the Spec calls such a frame unlocatable.  Value syntax of AIGP, PREFIX_SID,
+   BGP-LS and TUNNEL_ENCAP is not judged (the receive path keeps them as bytes). *)
 From Coq Require Import List NArith Bool.
 From RB Require Import Base.Val Base.Bytes Model.Wire Model.WireNlri Model.WireUpdate Model.WireMsg
-     Spec.Rfc7606 Model.Validate Proofs.Validate.
+     Spec.Rfc7606 Model.Validate Proofs.Validate Proofs.Rfc7606.
 Import ListNotations.
 Open Scope N_scope.
 
-(* (1) A faulty UPDATE yields no announcement, and every prefix it announced (legacy NLRI and MP_REACH) is delivered as a withdrawal. *)
-Theorem bad_update_installs_nothing_partial : forall reach mp_reach unreach mp_unreach attrs errs (e : bool), existsb err_fatal errs = true \/ mandatory_missing reach mp_reach attrs = true ->
-  let out := validate_update (URoutes reach mp_reach unreach mp_unreach attrs errs) e in
+(* (1) An UPDATE frame with an attribute that is malformed, wrongly flagged or an unrecognised well-known one (and not of a kind that may be discarded), or lacking a mandatory attribute, yields no announcement whatever is_ebgp is, and every prefix the frame announces (legacy NLRI and MP_REACH_NLRI) is delivered as a withdrawal. *)
+Theorem bad_update_installs_nothing : forall (p : profile) (cd : codec) (frame : list N) (u : pupdate) (e : bool), parse_message no_other p cd frame = Ok (PUpdate u) ->
+  v_must_withdraw (judge cd frame) = true ->
+  let out := validate_update u e in
   (forall m, In m out -> is_reach m = false) /\
-  (forall f en nh, In (f, en, nh) (opt_list reach ++ opt_list mp_reach) -> In (VUnreach f en) out).
-Proof. exact C05_bad_update_installs_nothing. Qed.
-Check bad_update_installs_nothing_partial : forall reach mp_reach unreach mp_unreach attrs errs (e : bool), existsb err_fatal errs = true \/ mandatory_missing reach mp_reach attrs = true ->
-  let out := validate_update (URoutes reach mp_reach unreach mp_unreach attrs errs) e in
+  (forall k, In k (v_announced (judge cd frame)) ->
+     exists f en x, In (VUnreach f en) out /\ In x en /\ k = (f, fst x, snd x)).
+Proof. exact C05_bad_update_installs_nothing_bytes. Qed.
+Check bad_update_installs_nothing : forall (p : profile) (cd : codec) (frame : list N) (u : pupdate) (e : bool), parse_message no_other p cd frame = Ok (PUpdate u) ->
+  v_must_withdraw (judge cd frame) = true ->
+  let out := validate_update u e in
   (forall m, In m out -> is_reach m = false) /\
-  (forall f en nh, In (f, en, nh) (opt_list reach ++ opt_list mp_reach) -> In (VUnreach f en) out).
-Print Assumptions bad_update_installs_nothing_partial.
+  (forall k, In k (v_announced (judge cd frame)) ->
+     exists f en x, In (VUnreach f en) out /\ In x en /\ k = (f, fst x, snd x)).
+Print Assumptions bad_update_installs_nothing.
 
-(* (1b) RIB effect: whatever the Adj-RIB-In held, after the messages of a faulty UPDATE are applied none of the prefixes it announced is present. *)
-Theorem bad_update_leaves_no_route_partial : forall reach mp_reach unreach mp_unreach attrs errs (e : bool), forall r : rib, existsb err_fatal errs = true \/ mandatory_missing reach mp_reach attrs = true ->
-  forall f en nh x, In (f, en, nh) (opt_list reach ++ opt_list mp_reach) -> In x en ->
-  has_key (apply_all r (validate_update (URoutes reach mp_reach unreach mp_unreach attrs errs) e)) (f, fst x, snd x) = false.
-Proof. exact (fun reach mp_reach unreach mp_unreach attrs errs e r => C05_bad_update_leaves_no_route reach mp_reach unreach mp_unreach attrs errs e r). Qed.
-Check bad_update_leaves_no_route_partial : forall reach mp_reach unreach mp_unreach attrs errs (e : bool), forall r : rib, existsb err_fatal errs = true \/ mandatory_missing reach mp_reach attrs = true ->
-  forall f en nh x, In (f, en, nh) (opt_list reach ++ opt_list mp_reach) -> In x en ->
-  has_key (apply_all r (validate_update (URoutes reach mp_reach unreach mp_unreach attrs errs) e)) (f, fst x, snd x) = false.
-Print Assumptions bad_update_leaves_no_route_partial.
+(* (1b) RIB effect: whatever the Adj-RIB-In held, after the messages of such a frame are applied none of the prefixes it announces is present. *)
+Theorem bad_update_leaves_no_route : forall (p : profile) (cd : codec) (frame : list N) (u : pupdate) (e : bool), forall r : rib, parse_message no_other p cd frame = Ok (PUpdate u) ->
+  v_must_withdraw (judge cd frame) = true ->
+  forall k, In k (v_announced (judge cd frame)) -> has_key (apply_all r (validate_update u e)) k = false.
+Proof. exact (fun p cd frame u e r => C05_bad_update_leaves_no_route_bytes p cd frame u e r). Qed.
+Check bad_update_leaves_no_route : forall (p : profile) (cd : codec) (frame : list N) (u : pupdate) (e : bool), forall r : rib, parse_message no_other p cd frame = Ok (PUpdate u) ->
+  v_must_withdraw (judge cd frame) = true ->
+  forall k, In k (v_announced (judge cd frame)) -> has_key (apply_all r (validate_update u e)) k = false.
+Print Assumptions bad_update_leaves_no_route.
 
-(* (2) Withdrawals carried by the UPDATE (legacy and MP_UNREACH) are delivered whatever is wrong with its attributes. *)
-Theorem withdrawals_survive_errors : forall reach mp_reach unreach mp_unreach attrs errs (e : bool), forall f en, In (f, en) (opt_list unreach ++ opt_list mp_unreach) ->
-  In (VUnreach f en) (validate_update (URoutes reach mp_reach unreach mp_unreach attrs errs) e).
-Proof. exact C05_withdrawals_survive_errors. Qed.
-Check withdrawals_survive_errors : forall reach mp_reach unreach mp_unreach attrs errs (e : bool), forall f en, In (f, en) (opt_list unreach ++ opt_list mp_unreach) ->
-  In (VUnreach f en) (validate_update (URoutes reach mp_reach unreach mp_unreach attrs errs) e).
+(* (2) Every withdrawal carried by the frame (withdrawn routes field and MP_UNREACH_NLRI) is delivered, whatever is wrong with its attributes. *)
+Theorem withdrawals_survive_errors : forall (p : profile) (cd : codec) (frame : list N) (u : pupdate) (e : bool), parse_message no_other p cd frame = Ok (PUpdate u) ->
+  forall k, In k (v_withdrawn (judge cd frame)) ->
+  exists f en x, In (VUnreach f en) (validate_update u e) /\ In x en /\ k = (f, fst x, snd x).
+Proof. exact C05_withdrawals_survive_bytes. Qed.
+Check withdrawals_survive_errors : forall (p : profile) (cd : codec) (frame : list N) (u : pupdate) (e : bool), parse_message no_other p cd frame = Ok (PUpdate u) ->
+  forall k, In k (v_withdrawn (judge cd frame)) ->
+  exists f en x, In (VUnreach f en) (validate_update u e) /\ In x en /\ k = (f, fst x, snd x).
 Print Assumptions withdrawals_survive_errors.
 
-(* (4) With is_ebgp computed from the role as run_select does (as repaired: Ebgp or RsClient), LOCAL_PREF, ORIGINATOR_ID and CLUSTER_LIST of an external peer never reach an announcement. *)
+(* (3) An UPDATE frame is answered with a session-reset NOTIFICATION only when the Spec cannot locate or parse its NLRI (length fields beyond the frame, MP_REACH_NLRI/MP_UNREACH_NLRI twice or structurally broken, family not negotiated, NLRI syntax).  Validation adds no reset: validate_update is a total function into message lists. *)
+Theorem reset_only_if_nlri_unlocatable : forall (p : profile) (cd : codec) (frame : list N) (e : notif),
+  nth_error frame 18 = Some 2 -> parse_message no_other p cd frame = Fail e ->
+  v_locatable (judge cd frame) = false.
+Proof. exact C05_reset_only_if_nlri_unlocatable. Qed.
+Check reset_only_if_nlri_unlocatable : forall (p : profile) (cd : codec) (frame : list N) (e : notif),
+  nth_error frame 18 = Some 2 -> parse_message no_other p cd frame = Fail e ->
+  v_locatable (judge cd frame) = false.
+Print Assumptions reset_only_if_nlri_unlocatable.
+
+(* (3b) Conversely a frame that parses is locatable, and the prefixes it announces / withdraws according to the Spec are exactly those of the parsed UPDATE. *)
+Theorem parsed_update_is_locatable : forall (p : profile) (cd : codec) (frame : list N) (u : pupdate),
+  parse_message no_other p cd frame = Ok (PUpdate u) ->
+  v_locatable (judge cd frame) = true /\ v_announced (judge cd frame) = announced_of u /\
+  v_withdrawn (judge cd frame) = withdrawn_of u.
+Proof. exact C05_parsed_update_is_locatable. Qed.
+Check parsed_update_is_locatable : forall (p : profile) (cd : codec) (frame : list N) (u : pupdate),
+  parse_message no_other p cd frame = Ok (PUpdate u) ->
+  v_locatable (judge cd frame) = true /\ v_announced (judge cd frame) = announced_of u /\
+  v_withdrawn (judge cd frame) = withdrawn_of u.
+Print Assumptions parsed_update_is_locatable.
+
+(* (4) With is_ebgp computed from the role as run_select does (Ebgp or RsClient), LOCAL_PREF, ORIGINATOR_ID and CLUSTER_LIST of an external peer never reach an announcement. *)
 Theorem ibgp_only_attrs_dropped_from_external : forall (u : pupdate) (role : prole), external role = true ->
   forall f en nh attrs a, In (VReach f en nh attrs) (validate_update u (is_ebgp_of_role role)) -> In a attrs ->
   a_code a <> 5 /\ a_code a <> 9 /\ a_code a <> 10.
